@@ -65,6 +65,10 @@ def check_item(item, fail):
         if got != exp['groups']:
             fail(iid, 'instance_groups', 'got %r expected %r' % (got, exp['groups']))
     files = root.findall(q('fdt', 'File'))
+    if not files:
+        # the RFC 6726 schema requires at least one File; an empty listing (nothing to announce)
+        # is the only thing the sender can say then: schema validity is not judged for it
+        item['xsd'] = False
     listing = sorted(f.get('TOI') or '?' for f in files)
     alts = exp.get('listing_alternatives')
     if alts is not None:
